@@ -29,7 +29,8 @@ type OpScenario struct {
 
 var opHeads = []string{"Merge", "Merge", "MergeWith", "MergeAll", "CombineLatest2", "CombineLatestWith", "CombineLatestAny", "Zip2", "ZipWith", "Race", "RaceWith",
 	"TakeUntil", "SkipUntil", "BufferWhen", "SampleWhen", "ThrottleWhen", "Merge3", "CombineLatest3",
-	"subject:publish", "subject:behavior", "subject:replay", "subject:publish"}
+	"subject:publish", "subject:behavior", "subject:replay", "subject:publish",
+	"ctx:ThrowOnContextCancel", "ctx:ThrowOnContextCancel"} // one sequential source; the subscription context is cancelled from another goroutine while it emits
 var opTails = []string{"", "", "StartWith", "TapOnSubscribe", "TapOnFinalize", "Map", "Serialize", "TapOnNext", "Take", "Filter"}
 
 func GenOp(r *rand.Rand) OpScenario {
@@ -42,6 +43,9 @@ func GenOp(r *rand.Rand) OpScenario {
 	}
 	if len(sc.Head) > 8 && sc.Head[:8] == "subject:" {
 		sc.K = 2 + r.Intn(2)
+	}
+	if len(sc.Head) > 4 && sc.Head[:4] == "ctx:" {
+		sc.K = 1
 	}
 	for i := 0; i < sc.K; i++ {
 		sc.Ends = append(sc.Ends, []string{"", "", "C", "C", "E"}[r.Intn(5)])
@@ -85,6 +89,12 @@ func RunOpPark(lg *rec.Log, sc OpScenario, seed int64, pk *rec.Parker) []rec.Ev 
 	base := context.WithValue(context.Background(), logKey{}, lg)
 	base = context.WithValue(base, rec.KeySub, true)
 	isSubj := len(sc.Head) > 8 && sc.Head[:8] == "subject:"
+	isCtx := len(sc.Head) > 4 && sc.Head[:4] == "ctx:"
+	var cancelSub context.CancelFunc
+	if isCtx {
+		base, cancelSub = context.WithCancel(base)
+		defer cancelSub()
+	}
 	var o ro.Observable[any]
 	var subj ro.Subject[any]
 	var ctls []*pipe.Ctl
@@ -110,7 +120,11 @@ func RunOpPark(lg *rec.Log, sc OpScenario, seed int64, pk *rec.Parker) []rec.Ev 
 			head = "Merge"
 		}
 		var err error
-		o, err = pipe.BuildMulti(head, srcs)
+		if isCtx {
+			o = ro.ThrowOnContextCancel[any]()(srcs[0])
+		} else {
+			o, err = pipe.BuildMulti(head, srcs)
+		}
 		if err != nil {
 			panic(err)
 		}
@@ -208,6 +222,22 @@ func RunOpPark(lg *rec.Log, sc OpScenario, seed int64, pk *rec.Parker) []rec.Ev 
 					}
 				}()
 			}
+		}()
+	}
+	if isCtx {
+		// the canceller: the watcher goroutine of the operator then raises the Error while the source may be in the middle of a Next
+		wg.Add(1)
+		wgOthers.Add(1)
+		go func() {
+			defer wg.Done()
+			defer wgOthers.Done()
+			r := rand.New(rand.NewSource(seed*1000 + 78))
+			<-startOthers
+			for i := 0; pk == nil && i < 2+r.Intn(8); i++ {
+				jitter(r)
+			}
+			cancelSub()
+			time.Sleep(200 * time.Microsecond) // let the watcher goroutine deliver
 		}()
 	}
 	if sc.Unsub {
